@@ -409,6 +409,20 @@ def translate_convert():
     out += f"Definition gen_convert_ploidy : Z := {ploidy}.\n"
     out += f'(* slices = core.chunk_aligned_slices(<array>, num_slices): the array handed over, and num_slices *)\nDefinition gen_convert_slices_array : string := "{nm}"%string.\n'
     out += f"Definition gen_convert_num_slices (worker_processes : Z) : Z := {nslices}.\n"
+    # the metadata arrays: which attribute of the fileset reader feeds which array
+    meta = []
+    locs = {}
+    for st in body:
+        if isinstance(st, ast.Assign) and isinstance(st.targets[0], ast.Name) and not (isinstance(st.value, ast.Call) and src(st.value.func) in ("root.array", "root.empty")):
+            locs[st.targets[0].id] = " ".join(src(st.value).split())
+        if isinstance(st, ast.Assign) and isinstance(st.value, ast.Call) and src(st.value.func) == "root.array":
+            kw = {k.arg: k.value for k in st.value.keywords if k.arg}
+            nm = st.value.args[0].value if st.value.args else kw["name"].value
+            d = " ".join(src(kw["data"]).split())
+            d = locs.get(d, d) if d.isidentifier() else d
+            meta.append((nm, d, " ".join(src(kw["dtype"]).split()).strip("'")))
+    out += "(* root.array(<name>, data=<expression over the fileset reader>, dtype=..) *)\n"
+    out += "Definition gen_convert_metadata : list (string * string * string) :=\n  [ " + ";\n    ".join(f'("{a}"%string, "{b}"%string, "{c}"%string)' for a, b, c in meta) + " ].\n"
     out += "(* one encode_genotypes_slice(bed_path, zarr_path, start, stop) task per slice; the metadata is consolidated after the pool is left *)\nDefinition gen_convert_submits_every_slice : bool := true.\n"
     return out
 
